@@ -25,6 +25,7 @@ def gen(run):
     # a path that does not mention the library name: nothing but the alien line counts as a mention, so most files are rewritten
     ex += [pl.case(pl.P_PLAIN, c, "ds") for c in pl.files(pl.alphabet19(pl.P_PLAIN), maxl)]
     small = [pl.case(pl.P_PLAIN, c, "ds") for c in pl.files(pl.alphabet19(pl.P_PLAIN), 2)]
+    small += [pl.case(P, c, "ds") for c in pl.files(pl.near_miss() + a19[:5], 2)]        # near misses of the search needle
     nr = 300 if run.tier == "quick" else 5000
     rnd = [pl.case(P, c, "ds") for c in pl.random_files(run.rng, P, nr, a19 + a18)]
     rnd += [pl.case(P, c, "ed") for c in pl.random_files(run.rng, P, nr // 2, a18)]
